@@ -325,7 +325,7 @@ def model_record(rid, reaction, model, *, aligned=False, do_formula=True, do_par
     from ampform.helicity.naming import CanonicalAmplitudeNameGenerator, HelicityAmplitudeNameGenerator
 
     rec = {"id": rid, **ampl.abstract_reaction(reaction), "aligned": int(aligned),
-           "do_formula": int(do_formula), "do_parity": int(do_parity), "do_closure": int(do_closure)}
+           "do_formula": int(do_formula), "do_parity": int(do_parity), "do_closure": int(do_closure), "default_naming": 1}
     chains = []
     if do_formula or do_parity:
         gen = (CanonicalAmplitudeNameGenerator if rec["canonical"] else HelicityAmplitudeNameGenerator)(reaction)
